@@ -102,6 +102,18 @@ func (w *ssWorld) connect(o ssConnectOpts) bool {
 	// the bridge may hang up as soon as it has sent and received everything
 	// while the client still has bytes coming; the link may then report the
 	// end of the stream in the same read as the last bytes
+	// one connection in five starts a moment before a full hour and the bridge
+	// takes its time, so that the reply arrives in the next hour
+	think := time.Duration(0)
+	if t.Draw("houredge", 5) == 4 {
+		edge := []time.Duration{time.Millisecond, 5 * time.Millisecond, 500 * time.Millisecond}[t.Draw("houredge.before", 3)]
+		left := time.Hour - time.Duration(time.Now().UnixNano()%int64(time.Hour))
+		if left > edge {
+			c.S.Sleep(left - edge)
+		}
+		think = []time.Duration{10 * time.Millisecond, time.Second, 3 * time.Second}[t.Draw("houredge.think", 3)]
+		c.Feature("connect-just-before-the-hour")
+	}
 	hangUp := !o.wrongSecret && o.tamperReply == 0 && !o.tamperPacket && t.Draw("hangup", 4) == 3
 	link.BA.ErrWithData = hangUp && t.Draw("ewd", 2) == 1
 	hungUp := false
@@ -184,6 +196,9 @@ func (w *ssWorld) connect(o ssConnectOpts) bool {
 			}
 		}
 		link.B.SetReadDeadline(time.Time{})
+		if think > 0 {
+			c.S.Sleep(think)
+		}
 		sess := accepted.Session
 		sawTicket = accepted.Ticket
 		sawUDH = accepted.Ticket == nil
